@@ -8,7 +8,7 @@ import itertools, random
 from collections import Counter
 import vlib
 
-THEOREM_FILES = ['C08']
+THEOREM_FILES = ['C08', 'C08b']
 ASSUMPTIONS = ['the generator knows which branch is selected because it chose the truth value of every condition and tracks .define lines of selected branches',
                'blanking (not removing) keeps line numbers, so that messages compare equal']
 
